@@ -13,6 +13,8 @@ import (
 	"strings"
 	"sync"
 	"time"
+
+	"github.com/go-sql-driver/mysql"
 )
 
 // Event is one entry of the scenario's single ordered journal: coordinator
@@ -107,6 +109,21 @@ func (w *world) faulted(kind string) string {
 
 var errInjected = errors.New("verif: injected failure")
 
+// serverErr: what a MySQL server answers, as the MySQL driver hands it on
+func serverErr(code string) error {
+	switch code {
+	case "nota":
+		return &mysql.MySQLError{Number: 1397, Message: "XAER_NOTA: Unknown XID"}
+	case "rmfail":
+		return &mysql.MySQLError{Number: 1399, Message: "XAER_RMFAIL: The command cannot be executed when global transaction is in the wrong state"}
+	case "dupid":
+		return &mysql.MySQLError{Number: 1440, Message: "XAER_DUPID: The XID already exists"}
+	case "rbidle":
+		return &mysql.MySQLError{Number: 1402, Message: "XA_RBROLLBACK: Transaction branch was rolled back"}
+	}
+	return xaErr{code}
+}
+
 type xaErr struct{ code string }
 
 func (e xaErr) Error() string { return "XAER " + e.code }
@@ -134,6 +151,17 @@ func (w *world) exec(c int, q string) error {
 		ev.Res = "fault"
 		w.events = append(w.events, ev)
 		switch fk {
+		case "rbonly":
+			// XA END of a rollback-only branch: the server answers an XA_RB* error and the branch
+			// is IDLE afterwards (only XA ROLLBACK is accepted); for other commands: a plain failure
+			if cmd == "END" {
+				if id2, has := w.cur[c]; has && id2 == id && w.branches[id].state == stActive {
+					w.branches[id].state = stIdle
+					w.events[len(w.events)-1].Res = "rbidle"
+					return serverErr("rbidle")
+				}
+			}
+			return errInjected
 		case "badconn":
 			return driver.ErrBadConn
 		case "ctx":
@@ -144,7 +172,7 @@ func (w *world) exec(c int, q string) error {
 	ev.Res = w.step(c, cmd, id)
 	w.events = append(w.events, ev)
 	if ev.Res != "ok" {
-		return xaErr{ev.Res}
+		return serverErr(ev.Res)
 	}
 	return nil
 }
